@@ -89,7 +89,7 @@ fn text_cell(t: &str) -> String {
 }
 
 /// the request frames of user statements the cluster received since the last drain, as frame bytes
-fn user_frames(cluster: &mock::MockCluster, ids: &[Vec<u8>], ext: bool) -> Result<Vec<Vec<u8>>, String> {
+fn user_frames(cluster: &mock::MockCluster, ids: &[Vec<u8>], ext: bool) -> Vec<Vec<u8>> {
     let mut v = vec![];
     for e in cluster.drain_trace() {
         if let Ev::In { version, flags, stream, opcode, body } = &e.ev {
@@ -109,10 +109,28 @@ fn user_frames(cluster: &mock::MockCluster, ids: &[Vec<u8>], ext: bool) -> Resul
             }
         }
     }
-    Ok(v)
+    v
 }
 
-pub async fn run(serial: u64) -> Result<String, String> {
+/// Why a scenario produced no judgement.
+pub enum E2eErr {
+    /// the scenario could not run: mock or session start, timeouts / broken connections (counted, capped)
+    Env(String),
+    /// the implementation did something the scenario does not allow for (a request failed although the node
+    /// answers every request): reported as a broken correspondence, never as ok
+    Deviation(String),
+}
+fn classify(what: &str, e: impl std::fmt::Display) -> E2eErr {
+    let msg = format!("{what}: {e}");
+    let l = msg.to_lowercase();
+    if ["timed out", "timeout", "connection", "broken", "i/o", "io error", "pool"].iter().any(|k| l.contains(k)) {
+        E2eErr::Env(msg)
+    } else {
+        E2eErr::Deviation(msg)
+    }
+}
+
+pub async fn run(serial: u64) -> Result<String, E2eErr> {
     let mut r = Rng::new(serial ^ 0xC09);
     let ext = serial % 2 == 1;
     let table = mock::TableDef::new("t", &[("pk", mock::CqlType::Int)], &[("ck", mock::CqlType::Int)], &[("v", mock::CqlType::Text)]);
@@ -141,7 +159,7 @@ pub async fn run(serial: u64) -> Result<String, String> {
         identity = identity.with_client_id(c);
     }
     let tablets = spec.options.tablets_ext;
-    let cluster = mock::MockCluster::start(spec).await.map_err(|e| format!("mock start: {e}"))?;
+    let cluster = mock::MockCluster::start(spec).await.map_err(|e| E2eErr::Env(format!("mock start: {e}")))?;
     let select = "SELECT pk, ck, v FROM ks.t WHERE pk = ? AND ck = ?";
     let insert = "INSERT INTO ks.t (pk, ck, v) VALUES (?, ?, ?)";
     let sel_mid = vec![0xA1, serial as u8, 3, 4, 5];
@@ -160,9 +178,9 @@ pub async fn run(serial: u64) -> Result<String, String> {
         .cluster_metadata_refresh_interval(Duration::from_secs(600))
         .build()
         .await
-        .map_err(|e| format!("session: {e}"))?;
-    let prep_sel = session.prepare(select).await.map_err(|e| format!("prepare: {e}"))?;
-    let prep_ins = session.prepare(insert).await.map_err(|e| format!("prepare: {e}"))?;
+        .map_err(|e| E2eErr::Env(format!("session: {e}")))?;
+    let prep_sel = session.prepare(select).await.map_err(|e| classify("prepare", e))?;
+    let prep_ins = session.prepare(insert).await.map_err(|e| classify("prepare", e))?;
     let sel_id = cluster.prepared_id(select);
     let ins_id = cluster.prepared_id(insert);
     let ids = vec![sel_id.clone(), ins_id.clone()];
@@ -227,7 +245,7 @@ pub async fn run(serial: u64) -> Result<String, String> {
     }
     if n_o == 0 || n_s == 0 || n_r == 0 {
         cluster.shutdown();
-        return Err(format!("setup frames not seen: options {n_o} startup {n_s} register {n_r}"));
+        return Err(E2eErr::Deviation(format!("setup frames not seen: options {n_o} startup {n_s} register {n_r}")));
     }
 
     let nreq = 10;
@@ -267,10 +285,10 @@ pub async fn run(serial: u64) -> Result<String, String> {
                     st.set_page_size(p);
                 }
                 if kind == 0 {
-                    session.query_unpaged(st, ()).await.map_err(|e| format!("query_unpaged: {e}"))?;
+                    session.query_unpaged(st, ()).await.map_err(|e| classify("query_unpaged", e))?;
                     asked = format!("Q/{}/{}/{}/{}/-/N/0/-", hex_bytes(text.as_bytes()), o.cons_s(), o.serial_s(), o.ts_s());
                 } else {
-                    session.query_single_page(st, (), paging_state()).await.map_err(|e| format!("query_single_page: {e}"))?;
+                    session.query_single_page(st, (), paging_state()).await.map_err(|e| classify("query_single_page", e))?;
                     asked = format!("Q/{}/{}/{}/{}/{}/{}/0/-", hex_bytes(text.as_bytes()), o.cons_s(), o.serial_s(), o.ts_s(), page_s, paging_s);
                 }
             }
@@ -309,16 +327,16 @@ pub async fn run(serial: u64) -> Result<String, String> {
                 let unpaged = kind == 2 || (kind == 4 && r.bool());
                 if unpaged {
                     if use_select {
-                        session.execute_unpaged(&p, (a, b)).await.map_err(|e| format!("execute_unpaged: {e}"))?;
+                        session.execute_unpaged(&p, (a, b)).await.map_err(|e| classify("execute_unpaged", e))?;
                     } else {
-                        session.execute_unpaged(&p, (a, b, word)).await.map_err(|e| format!("execute_unpaged: {e}"))?;
+                        session.execute_unpaged(&p, (a, b, word)).await.map_err(|e| classify("execute_unpaged", e))?;
                     }
                     asked = format!("E/2/{}/{}/{}/{}/{}/-/N/{}/{}", hex_bytes(id), mid_s, o.cons_s(), o.serial_s(), o.ts_s(), skip as u8, cells);
                 } else {
                     if use_select {
-                        session.execute_single_page(&p, (a, b), paging_state()).await.map_err(|e| format!("execute_single_page: {e}"))?;
+                        session.execute_single_page(&p, (a, b), paging_state()).await.map_err(|e| classify("execute_single_page", e))?;
                     } else {
-                        session.execute_single_page(&p, (a, b, word), paging_state()).await.map_err(|e| format!("execute_single_page: {e}"))?;
+                        session.execute_single_page(&p, (a, b, word), paging_state()).await.map_err(|e| classify("execute_single_page", e))?;
                     }
                     asked = format!(
                         "E/2/{}/{}/{}/{}/{}/{}/{}/{}/{}",
@@ -344,7 +362,7 @@ pub async fn run(serial: u64) -> Result<String, String> {
                 if kind == 5 {
                     batch.append_statement(Statement::new(t1.clone()));
                     batch.append_statement(prep_ins.clone());
-                    session.batch(&batch, ((), (a, b, word))).await.map_err(|e| format!("batch: {e}"))?;
+                    session.batch(&batch, ((), (a, b, word))).await.map_err(|e| classify("batch", e))?;
                     asked = format!(
                         "B/c/{}/{}/{}/{}/q{},p{}/-;{}",
                         bts, o.cons_s(), o.serial_s(), o.ts_s(), hex_bytes(t1.as_bytes()), hex_bytes(&ins_id), ins_cells
@@ -353,7 +371,7 @@ pub async fn run(serial: u64) -> Result<String, String> {
                     batch.append_statement(prep_ins.clone());
                     batch.append_statement(prep_ins.clone());
                     batch.append_statement(Statement::new(t1.clone()));
-                    session.batch(&batch, ((a, b, word), (b, a, "second"), ())).await.map_err(|e| format!("batch: {e}"))?;
+                    session.batch(&batch, ((a, b, word), (b, a, "second"), ())).await.map_err(|e| classify("batch", e))?;
                     asked = format!(
                         "B/c/{}/{}/{}/{}/p{},p{},q{}/{};{},{},{};-",
                         bts, o.cons_s(), o.serial_s(), o.ts_s(), hex_bytes(&ins_id), hex_bytes(&ins_id), hex_bytes(t1.as_bytes()),
@@ -362,12 +380,17 @@ pub async fn run(serial: u64) -> Result<String, String> {
                 }
             }
         }
-        let frames = user_frames(&cluster, &ids, ext)?;
-        if frames.len() != 1 {
-            cluster.shutdown();
-            return Err(format!("request {i}: expected exactly one request frame, saw {}", frames.len()));
+        let frames = user_frames(&cluster, &ids, ext);
+        if frames.len() == 1 {
+            items.push(format!("{}:{}", asked, hex_bytes(&frames[0])));
+        } else if frames.is_empty() {
+            // one call must put exactly one request frame on the wire: reported, judged by the driver
+            items.push(format!("{}#0:-", asked));
+        } else {
+            for f in &frames {
+                items.push(format!("{}#{}:{}", asked, frames.len(), hex_bytes(f)));
+            }
         }
-        items.push(format!("{}:{}", asked, hex_bytes(&frames[0])));
     }
     cluster.shutdown();
     drop(session);
